@@ -226,10 +226,17 @@ def ops_coq(sc):
     return "[" + "; ".join(op_coq(o) for o in sc["ops"]) + "]"
 
 
-def orders(n):
-    """poll orders under which the model is evaluated; the implementation's scheduler is one more"""
+def orders(n, full=False):
+    """poll orders under which the model is evaluated; the implementation's scheduler is one more.
+    full: every permutation, plain and with each actor polled twice in a row (thread-local modes: the
+    LocalSet serves a local and a remote run queue, so its order is less FIFO-like than the single
+    queue of the current_thread scheduler; agreement of ALL round-robin orders is demanded there)"""
     asc = list(range(n))
     desc = list(reversed(asc))
+    if full:
+        import itertools
+        ps = [list(p) for p in itertools.permutations(asc)]
+        return ps + [[i for i in p for _ in (0, 1)] for p in ps]
     return [asc, desc, asc[1:] + asc[:1], [i for i in asc for _ in (0, 1)], [i for i in desc for _ in (0, 1)]]
 
 
@@ -367,7 +374,7 @@ def compare_build(chk, scs, build, tag, oracle_fn, accept, what, distinct, mode=
     for sc, it, wm in zip(scs, impl, with_model):
         n = len(sc["actors"])
         if wm:
-            ms = ", ".join(model_expr(sc, o) for o in orders(n))
+            ms = ", ".join(model_expr(sc, o) for o in orders(n, full=local))
             exprs.append(f"({ms}, {oracle_fn(n, links_coq(sc), it)})")
         else:
             exprs.append(f"(0, {oracle_fn(n, links_coq(sc), it)})")
